@@ -217,7 +217,10 @@ Next == \E p \in ph..3 :
 Spec == Init /\ [][Next]_vars
 
 Bound == Len(hist) <= Max1 + Max2 + Max3
-EmitReplay == (EmitEvery > 0 /\ RandomElement(1..EmitEvery) = 1) => PrintT(<<"REPLAY", ToJson(hist')>>)
+\* Only histories that used up all budgets are emitted: every shorter history is a prefix of one of
+\* them, and the harness observes and the trace specification judges every prefix of what it replays.
+EmitReplay == (EmitEvery > 0 /\ Len(hist') = Max1 + Max2 + Max3 /\ RandomElement(1..EmitEvery) = 1)
+                => PrintT(<<"REPLAY", ToJson(hist')>>)
 
 (* what TLC checks ------------------------------------------------------------*)
 NoViolation == viol = {}
